@@ -65,10 +65,9 @@ Lemma links_del_nodup : forall L L', links_del L L' -> NoDup (map fst L) -> NoDu
 Proof.
   intros L L' H. induction H; intros K; auto.
   apply IHlinks_del. rewrite map_app in *. cbn [map fst] in *.
-  apply NoDup_remove_1 with (a := b).
-  replace (map fst pre ++ a :: b :: map fst post) with ((map fst pre ++ [a]) ++ b :: map fst post) in K
-    by (rewrite <- app_assoc; reflexivity).
-  rewrite <- app_assoc. exact K.
+  assert (K' : NoDup ((map fst pre ++ [a]) ++ b :: map fst post))
+    by (rewrite <- app_assoc; exact K).
+  apply NoDup_remove_1 in K'. rewrite <- app_assoc in K'. exact K'.
 Qed.
 
 Lemma links_del_hd : forall L L', links_del L L' -> hd_error (map fst L') = hd_error (map fst L).
@@ -268,4 +267,716 @@ Proof.
   split; [auto|split; [auto|split]].
   - apply ords_app; auto. split; auto. eapply ords_cons_change; eauto.
   - apply Forall_app. split; auto.
+Qed.
+
+(* ------------------------------------------------------------------ *)
+(* what the code computes (zipper form) *)
+
+Lemma exec_right_leaf : forall ks1 sep ks2 (cs1 cs2 : list ptree) cid cc cks cvs cnx rid rc k s rks v rvs rnx,
+  length cs1 = length ks1 ->
+  (rc - 1) / 2 < length (k :: s :: rks) ->
+  redistribute_from_right (ks1 ++ sep :: ks2)
+    (cs1 ++ PLeaf cid cc cks cvs cnx :: PLeaf rid rc (k :: s :: rks) (v :: rvs) rnx :: cs2) (length cs1)
+  = Ok (ks1 ++ s :: ks2,
+        cs1 ++ PLeaf cid cc (cks ++ [k]) (cvs ++ [v]) cnx :: PLeaf rid rc (s :: rks) rvs rnx :: cs2).
+Proof.
+  intros * L D. unfold redistribute_from_right.
+  rewrite (vec_get_ok _ _ _ (nth_error_zip0 _ _ _)). cbn [bind].
+  rewrite (vec_get_ok _ _ _ (nth_error_zip1 _ _ _ _)). cbn [bind].
+  unfold py_can_donate, min_keys. cbn [pcap pkeys]. ltb_true D. cbn [negb].
+  rewrite vec_set_ok by (rewrite app_length; cbn [length]; lia). cbn [bind].
+  rewrite (set_nth_zip0' _ _ _ _ _ _ L), set_nth_zip0, set_nth_zip1. reflexivity.
+Qed.
+
+Lemma exec_right_branch : forall ks1 sep ks2 (cs1 cs2 : list ptree) cid cc cks ccs rid rc k0 rks c0 rcs,
+  length cs1 = length ks1 ->
+  (rc - 1) / 2 < length (k0 :: rks) ->
+  redistribute_from_right (ks1 ++ sep :: ks2)
+    (cs1 ++ PBranch cid cc cks ccs :: PBranch rid rc (k0 :: rks) (c0 :: rcs) :: cs2) (length cs1)
+  = Ok (ks1 ++ k0 :: ks2,
+        cs1 ++ PBranch cid cc (cks ++ [sep]) (ccs ++ [c0]) :: PBranch rid rc rks rcs :: cs2).
+Proof.
+  intros * L D. unfold redistribute_from_right.
+  rewrite (vec_get_ok _ _ _ (nth_error_zip0 _ _ _)). cbn [bind].
+  rewrite (vec_get_ok _ _ _ (nth_error_zip1 _ _ _ _)). cbn [bind].
+  rewrite (vec_get_ok _ _ _ (nth_error_zip0' _ _ _ _ _ L)). cbn [bind].
+  unfold py_can_donate, min_keys. cbn [pcap pkeys]. ltb_true D. cbn [negb].
+  rewrite vec_set_ok by (rewrite app_length; cbn [length]; lia). cbn [bind].
+  rewrite (set_nth_zip0' _ _ _ _ _ _ L), set_nth_zip0, set_nth_zip1. reflexivity.
+Qed.
+
+Lemma exec_left_leaf : forall ks1 sep ks2 (cs1 cs2 : list ptree) lid lc lks k lvs v lnx cid cc cks cvs cnx,
+  length cs1 = length ks1 ->
+  (lc - 1) / 2 < length (lks ++ [k]) ->
+  redistribute_from_left (ks1 ++ sep :: ks2)
+    (cs1 ++ PLeaf lid lc (lks ++ [k]) (lvs ++ [v]) lnx :: PLeaf cid cc cks cvs cnx :: cs2) (S (length cs1))
+  = Ok (ks1 ++ k :: ks2,
+        cs1 ++ PLeaf lid lc lks lvs lnx :: PLeaf cid cc (k :: cks) (v :: cvs) cnx :: cs2).
+Proof.
+  intros * L D. unfold redistribute_from_left.
+  replace (S (length cs1) - 1) with (length cs1) by lia.
+  rewrite (vec_get_ok _ _ _ (nth_error_zip1 _ _ _ _)). cbn [bind].
+  rewrite (vec_get_ok _ _ _ (nth_error_zip0 _ _ _)). cbn [bind].
+  unfold py_can_donate, min_keys. cbn [pcap pkeys]. ltb_true D. cbn [negb].
+  rewrite !vec_pop_app.
+  rewrite vec_set_ok by (rewrite app_length; cbn [length]; lia). cbn [bind].
+  rewrite (set_nth_zip0' _ _ _ _ _ _ L), set_nth_zip0, set_nth_zip1. reflexivity.
+Qed.
+
+Lemma exec_left_branch : forall ks1 sep ks2 (cs1 cs2 : list ptree) lid lc lks k0 lcs c0 cid cc cks ccs,
+  length cs1 = length ks1 ->
+  (lc - 1) / 2 < length (lks ++ [k0]) ->
+  redistribute_from_left (ks1 ++ sep :: ks2)
+    (cs1 ++ PBranch lid lc (lks ++ [k0]) (lcs ++ [c0]) :: PBranch cid cc cks ccs :: cs2) (S (length cs1))
+  = Ok (ks1 ++ k0 :: ks2,
+        cs1 ++ PBranch lid lc lks lcs :: PBranch cid cc (sep :: cks) (c0 :: ccs) :: cs2).
+Proof.
+  intros * L D. unfold redistribute_from_left.
+  replace (S (length cs1) - 1) with (length cs1) by lia.
+  rewrite (vec_get_ok _ _ _ (nth_error_zip1 _ _ _ _)). cbn [bind].
+  rewrite (vec_get_ok _ _ _ (nth_error_zip0 _ _ _)). cbn [bind].
+  rewrite (vec_get_ok _ _ _ (nth_error_zip0' _ _ _ _ _ L)). cbn [bind].
+  unfold py_can_donate, min_keys. cbn [pcap pkeys]. ltb_true D. cbn [negb].
+  rewrite !vec_pop_app.
+  rewrite vec_set_ok by (rewrite app_length; cbn [length]; lia). cbn [bind].
+  rewrite (set_nth_zip0' _ _ _ _ _ _ L), set_nth_zip0, set_nth_zip1. reflexivity.
+Qed.
+
+Lemma exec_merge_leaf : forall cap ks1 sep ks2 (cs1 cs2 : list ptree) aid ac aks avs anx bid bc bks bvs bnx,
+  length cs1 = length ks1 -> length aks + length bks <= cap ->
+  merge_pair cap (ks1 ++ sep :: ks2)
+    (cs1 ++ PLeaf aid ac aks avs anx :: PLeaf bid bc bks bvs bnx :: cs2) (length cs1)
+  = Ok (ks1 ++ ks2, cs1 ++ PLeaf aid ac (aks ++ bks) (avs ++ bvs) bnx :: cs2).
+Proof.
+  intros * L G. unfold merge_pair.
+  rewrite (vec_get_ok _ _ _ (nth_error_zip0 _ _ _)). cbn [bind].
+  rewrite (vec_get_ok _ _ _ (nth_error_zip1 _ _ _ _)). cbn [bind].
+  leb_true G. rewrite set_nth_zip0.
+  rewrite (vec_remove_ok _ _ _ (nth_error_zip1 _ _ _ _)). cbn [bind].
+  rewrite (vec_remove_ok _ _ _ (nth_error_zip0' _ _ _ _ _ L)). cbn [bind snd].
+  rewrite remove_at_zip1, (remove_at_zip0' _ _ _ _ _ L). reflexivity.
+Qed.
+
+Lemma exec_merge_branch : forall cap ks1 sep ks2 (cs1 cs2 : list ptree) aid ac aks acs bid bc bks bcs,
+  length cs1 = length ks1 ->
+  length aks + length bks + 1 <= cap -> length acs + length bcs <= cap + 1 ->
+  merge_pair cap (ks1 ++ sep :: ks2)
+    (cs1 ++ PBranch aid ac aks acs :: PBranch bid bc bks bcs :: cs2) (length cs1)
+  = Ok (ks1 ++ ks2, cs1 ++ PBranch aid ac (aks ++ sep :: bks) (acs ++ bcs) :: cs2).
+Proof.
+  intros * L G1 G2. unfold merge_pair.
+  rewrite (vec_get_ok _ _ _ (nth_error_zip0 _ _ _)). cbn [bind].
+  rewrite (vec_get_ok _ _ _ (nth_error_zip1 _ _ _ _)). cbn [bind].
+  leb_true G1. leb_true G2. cbn [andb].
+  rewrite (vec_get_ok _ _ _ (nth_error_zip0' _ _ _ _ _ L)). cbn [bind].
+  rewrite set_nth_zip0.
+  rewrite (vec_remove_ok _ _ _ (nth_error_zip1 _ _ _ _)). cbn [bind].
+  rewrite (vec_remove_ok _ _ _ (nth_error_zip0' _ _ _ _ _ L)). cbn [bind snd].
+  rewrite remove_at_zip1, (remove_at_zip0' _ _ _ _ _ L). reflexivity.
+Qed.
+
+(* _merge_with_sibling: which pair is merged *)
+Lemma merge_with_sibling_left : forall cap ks (cs : list ptree) ci,
+  0 < ci -> ci < length cs -> length cs = S (length ks) ->
+  merge_with_sibling cap ks cs ci = merge_pair cap ks cs (ci - 1).
+Proof.
+  intros * H0 H1 L. unfold merge_with_sibling.
+  destruct (nth_error cs ci) as [x|] eqn:E; [|apply nth_error_None in E; lia].
+  rewrite (vec_get_ok _ _ _ E). cbn [bind].
+  destruct (Nat.leb_spec (length cs) ci); [lia|].
+  replace (Nat.eqb (length ks) (length cs - 1)) with true by (symmetry; apply Nat.eqb_eq; lia).
+  cbn [negb]. ltb_true H0. reflexivity.
+Qed.
+
+Lemma merge_with_sibling_right : forall cap ks (cs : list ptree),
+  1 < length cs -> length cs = S (length ks) ->
+  merge_with_sibling cap ks cs 0 = merge_pair cap ks cs 0.
+Proof.
+  intros * H1 L. unfold merge_with_sibling.
+  destruct (nth_error cs 0) as [x|] eqn:E; [|apply nth_error_None in E; lia].
+  rewrite (vec_get_ok _ _ _ E). cbn [bind].
+  destruct (Nat.leb_spec (length cs) 0); [lia|].
+  replace (Nat.eqb (length ks) (length cs - 1)) with true by (symmetry; apply Nat.eqb_eq; lia).
+  cbn [negb]. change (Nat.ltb 0 0) with false. cbv iota.
+  destruct (Nat.ltb_spec 0 (length cs - 1)); [reflexivity|lia].
+Qed.
+
+(* _handle_underflow: which of the three repairs is chosen *)
+Lemma hu_not_underfull : forall cap ks (cs : list ptree) ci x,
+  nth_error cs ci = Some x -> py_is_underfull x = false ->
+  handle_underflow cap ks cs ci = Ok (ks, cs).
+Proof.
+  intros * E U. unfold handle_underflow. rewrite (vec_get_ok _ _ _ E). cbn [bind].
+  rewrite U. reflexivity.
+Qed.
+
+Lemma hu_right : forall cap ks (cs : list ptree) ci x r,
+  nth_error cs ci = Some x -> py_is_underfull x = true ->
+  nth_error cs (S ci) = Some r -> py_can_donate r = true ->
+  handle_underflow cap ks cs ci = redistribute_from_right ks cs ci.
+Proof.
+  intros * E U Er D. unfold handle_underflow. rewrite (vec_get_ok _ _ _ E). cbn [bind].
+  rewrite U. cbn [negb].
+  assert (S ci < length cs) by (apply nth_error_Some; congruence).
+  destruct (Nat.ltb_spec ci (length cs - 1)); [|lia]. rewrite Er, D. reflexivity.
+Qed.
+
+Lemma hu_left : forall cap ks (cs : list ptree) ci x l,
+  nth_error cs ci = Some x -> py_is_underfull x = true ->
+  (forall r, nth_error cs (S ci) = Some r -> py_can_donate r = false) ->
+  0 < ci -> nth_error cs (ci - 1) = Some l -> py_can_donate l = true ->
+  handle_underflow cap ks cs ci = redistribute_from_left ks cs ci.
+Proof.
+  intros * E U Hr H0 El D. unfold handle_underflow. rewrite (vec_get_ok _ _ _ E). cbn [bind].
+  rewrite U. cbn [negb].
+  replace (if Nat.ltb ci (length cs - 1)
+           then match nth_error cs (S ci) with Some r => py_can_donate r | None => false end
+           else false) with false.
+  2:{ destruct (Nat.ltb ci (length cs - 1)); auto.
+      destruct (nth_error cs (S ci)) eqn:E1; auto. symmetry. auto. }
+  ltb_true H0. rewrite El, D. reflexivity.
+Qed.
+
+Lemma hu_merge : forall cap ks (cs : list ptree) ci x,
+  nth_error cs ci = Some x -> py_is_underfull x = true ->
+  (forall r, nth_error cs (S ci) = Some r -> py_can_donate r = false) ->
+  (forall l, 0 < ci -> nth_error cs (ci - 1) = Some l -> py_can_donate l = false) ->
+  handle_underflow cap ks cs ci = merge_with_sibling cap ks cs ci.
+Proof.
+  intros * E U Hr Hl. unfold handle_underflow. rewrite (vec_get_ok _ _ _ E). cbn [bind].
+  rewrite U. cbn [negb].
+  replace (if Nat.ltb ci (length cs - 1)
+           then match nth_error cs (S ci) with Some r => py_can_donate r | None => false end
+           else false) with false.
+  2:{ destruct (Nat.ltb ci (length cs - 1)); auto.
+      destruct (nth_error cs (S ci)) eqn:E1; auto. symmetry. auto. }
+  replace (if Nat.ltb 0 ci
+           then match nth_error cs (ci - 1) with Some l => py_can_donate l | None => false end
+           else false) with false.
+  2:{ destruct (Nat.ltb_spec 0 ci); auto.
+      destruct (nth_error cs (ci - 1)) eqn:E1; auto. symmetry. auto. }
+  reflexivity.
+Qed.
+
+(* ------------------------------------------------------------------ *)
+(* the eight cases on a zipper *)
+Definition prb_post (c : nat) (lo hi : option Z) (h : nat) (ks : list key) (cs : list ptree)
+    (ks' : list key) (cs' : list ptree) : Prop :=
+  pbody c lo hi h ks' cs' /\
+  (length ks' = length ks \/ S (length ks') = length ks) /\
+  CT cs' = CT cs /\
+  links_del (LL cs) (LL cs').
+
+Lemma links_del_eq : forall L L', L' = L -> links_del L L'.
+Proof. intros; subst; apply ld_refl. Qed.
+
+Lemma case_leaf_borrow_right : forall c lo hi ks1 sep ks2 cs1 cs2 xid xks xvs xnx yid yks yvs ynx,
+  4 <= c -> length cs1 = length ks1 ->
+  sorted_keys (ks1 ++ sep :: ks2) -> Forall (in_bounds lo hi) (ks1 ++ sep :: ks2) ->
+  ords lo hi (ks1 ++ sep :: ks2) (cs1 ++ PLeaf xid c xks xvs xnx :: PLeaf yid c yks yvs ynx :: cs2) ->
+  Forall (pshape c false 0) cs1 -> Forall (pshape c false 0) cs2 ->
+  length xvs = length xks -> S (length xks) = (c - 1) / 2 ->
+  length yvs = length yks -> (c - 1) / 2 < length yks -> length yks <= c ->
+  exists ks' cs',
+    redistribute_from_right (ks1 ++ sep :: ks2)
+      (cs1 ++ PLeaf xid c xks xvs xnx :: PLeaf yid c yks yvs ynx :: cs2) (length cs1)
+    = Ok (ks', cs') /\
+    prb_post c lo hi 0 (ks1 ++ sep :: ks2)
+      (cs1 ++ PLeaf xid c xks xvs xnx :: PLeaf yid c yks yvs ynx :: cs2) ks' cs'.
+Proof.
+  intros * C L Sk F O F1 F2 Lxv Lx Lyv Ly1 Ly2.
+  pose proof (pmin_facts C) as PM.
+  destruct yks as [|k [|s yks'']]; try (cbn [length] in Ly1; lia).
+  destruct yvs as [|v yvs']; [discriminate|].
+  eexists. eexists. split.
+  - apply exec_right_leaf; auto.
+  - destruct (zip_ctx _ _ _ _ _ _ _ _ _ _ L O) as (_ & Ox & _ & Oy).
+    destruct (zip_sep_bounds _ _ _ _ _ Sk F) as [Bl Bh].
+    destruct (pair_leaf_borrow_right _ _ _ _ _ _ _ _ _ _ _ _ _ _ _ _ _ Ox Oy Bl) as (Ox' & Oy' & G & H).
+    split; [|split; [|split]].
+    + eapply p_lift_borrow_body; eauto.
+      * constructor; rewrite ?app_length; cbn [length]; [lia | lia | intros _; lia].
+      * constructor; cbn [length] in *; [lia | lia | intros _; lia].
+    + left. rewrite !app_length. reflexivity.
+    + rewrite !flat_map_zip2. simpl. rewrite combine_snoc; auto. repeat rewrite <- app_assoc. simpl. reflexivity.
+    + apply links_del_eq. rewrite !flat_map_zip2. reflexivity.
+Qed.
+
+Lemma case_leaf_borrow_left : forall c lo hi ks1 sep ks2 cs1 cs2 xid xks xvs xnx yid yks yvs ynx,
+  4 <= c -> length cs1 = length ks1 ->
+  sorted_keys (ks1 ++ sep :: ks2) -> Forall (in_bounds lo hi) (ks1 ++ sep :: ks2) ->
+  ords lo hi (ks1 ++ sep :: ks2) (cs1 ++ PLeaf xid c xks xvs xnx :: PLeaf yid c yks yvs ynx :: cs2) ->
+  Forall (pshape c false 0) cs1 -> Forall (pshape c false 0) cs2 ->
+  length xvs = length xks -> (c - 1) / 2 < length xks -> length xks <= c ->
+  length yvs = length yks -> S (length yks) = (c - 1) / 2 ->
+  exists ks' cs',
+    redistribute_from_left (ks1 ++ sep :: ks2)
+      (cs1 ++ PLeaf xid c xks xvs xnx :: PLeaf yid c yks yvs ynx :: cs2) (S (length cs1))
+    = Ok (ks', cs') /\
+    prb_post c lo hi 0 (ks1 ++ sep :: ks2)
+      (cs1 ++ PLeaf xid c xks xvs xnx :: PLeaf yid c yks yvs ynx :: cs2) ks' cs'.
+Proof.
+  intros * C L Sk F O F1 F2 Lxv Lx1 Lx2 Lyv Ly.
+  pose proof (pmin_facts C) as PM.
+  destruct (snoc_cases xks) as [->|(xks' & k & ->)]; [cbn [length] in Lx1; lia|].
+  destruct (snoc_cases xvs) as [->|(xvs' & v & ->)];
+    [rewrite app_length in Lxv; cbn [length] in Lxv; lia|].
+  assert (Lxv' : length xvs' = length xks') by (rewrite !app_length in Lxv; cbn [length] in Lxv; lia).
+  assert (Lx' : (c - 1) / 2 <= length xks') by (rewrite app_length in Lx1; cbn [length] in Lx1; lia).
+  eexists. eexists. split.
+  - apply exec_left_leaf; auto.
+  - destruct (zip_ctx _ _ _ _ _ _ _ _ _ _ L O) as (_ & Ox & _ & Oy).
+    destruct (zip_sep_bounds _ _ _ _ _ Sk F) as [Bl Bh].
+    assert (Ne : xks' <> []) by (intro; subst; cbn [length] in Lx'; lia).
+    destruct (pair_leaf_borrow_left _ _ _ _ _ _ _ _ _ v _ _ _ _ _ _ Ox Oy Bh Ne) as (Ox' & Oy' & G & H).
+    split; [|split; [|split]].
+    + eapply p_lift_borrow_body; eauto.
+      * constructor; auto. rewrite app_length in Lx2; cbn [length] in Lx2; lia.
+      * constructor; cbn [length]; [lia | lia | intros _; lia].
+    + left. rewrite !app_length. reflexivity.
+    + rewrite !flat_map_zip2. simpl. rewrite combine_snoc; auto. repeat rewrite <- app_assoc. simpl. reflexivity.
+    + apply links_del_eq. rewrite !flat_map_zip2. reflexivity.
+Qed.
+
+Lemma leaf_merge_post : forall c lo hi ks1 sep ks2 cs1 cs2 xid xks xvs xnx yid yks yvs ynx,
+  4 <= c -> length cs1 = length ks1 ->
+  sorted_keys (ks1 ++ sep :: ks2) -> Forall (in_bounds lo hi) (ks1 ++ sep :: ks2) ->
+  ords lo hi (ks1 ++ sep :: ks2) (cs1 ++ PLeaf xid c xks xvs xnx :: PLeaf yid c yks yvs ynx :: cs2) ->
+  Forall (pshape c false 0) cs1 -> Forall (pshape c false 0) cs2 ->
+  length xvs = length xks -> length yvs = length yks ->
+  S (length xks + length yks) = 2 * ((c - 1) / 2) ->
+  prb_post c lo hi 0 (ks1 ++ sep :: ks2)
+    (cs1 ++ PLeaf xid c xks xvs xnx :: PLeaf yid c yks yvs ynx :: cs2)
+    (ks1 ++ ks2) (cs1 ++ PLeaf xid c (xks ++ yks) (xvs ++ yvs) ynx :: cs2).
+Proof.
+  intros * C L Sk F O F1 F2 Lxv Lyv Lsum.
+  pose proof (pmin_facts C) as PM.
+  destruct (zip_ctx _ _ _ _ _ _ _ _ _ _ L O) as (_ & Ox & _ & Oy).
+  destruct (zip_sep_bounds _ _ _ _ _ Sk F) as [Bl Bh].
+  pose proof (pair_leaf_merge _ _ _ _ _ _ _ _ _ _ _ _ _ _ Ox Oy Bl Bh) as Om.
+  split; [|split; [|split]].
+  - eapply p_lift_merge_body; eauto.
+    constructor; rewrite ?app_length; [lia | lia | intros _; lia].
+  - right. rewrite !app_length. simpl. lia.
+  - rewrite flat_map_zip2, flat_map_zip1. simpl. rewrite combine_app; auto.
+  - rewrite flat_map_zip2, flat_map_zip1. simpl. apply links_del_one.
+Qed.
+
+Lemma case_branch_borrow_right : forall c lo hi h ks1 sep ks2 cs1 cs2 xid xks xcs yid yks ycs,
+  4 <= c -> length cs1 = length ks1 ->
+  sorted_keys (ks1 ++ sep :: ks2) -> Forall (in_bounds lo hi) (ks1 ++ sep :: ks2) ->
+  ords lo hi (ks1 ++ sep :: ks2) (cs1 ++ PBranch xid c xks xcs :: PBranch yid c yks ycs :: cs2) ->
+  Forall (pshape c false (S h)) cs1 -> Forall (pshape c false (S h)) cs2 ->
+  length xcs = S (length xks) -> S (length xks) = (c - 1) / 2 -> Forall (pshape c false h) xcs ->
+  length ycs = S (length yks) -> (c - 1) / 2 < length yks -> length yks <= c ->
+  Forall (pshape c false h) ycs ->
+  exists ks' cs',
+    redistribute_from_right (ks1 ++ sep :: ks2)
+      (cs1 ++ PBranch xid c xks xcs :: PBranch yid c yks ycs :: cs2) (length cs1)
+    = Ok (ks', cs') /\
+    prb_post c lo hi (S h) (ks1 ++ sep :: ks2)
+      (cs1 ++ PBranch xid c xks xcs :: PBranch yid c yks ycs :: cs2) ks' cs'.
+Proof.
+  intros * C L Sk F O F1 F2 Lxc Lx Fx Lyc Ly1 Ly2 Fy.
+  pose proof (pmin_facts C) as PM.
+  destruct yks as [|mk yks']; [cbn [length] in Ly1; lia|].
+  destruct ycs as [|mc ycs']; [discriminate|].
+  inversion Fy as [|? ? Sm Fy']; subst.
+  eexists. eexists. split.
+  - apply exec_right_branch; auto.
+  - destruct (zip_ctx _ _ _ _ _ _ _ _ _ _ L O) as (_ & Ox & _ & Oy).
+    destruct (zip_sep_bounds _ _ _ _ _ Sk F) as [Bl Bh].
+    destruct (p_pair_branch_borrow_right c h _ _ _ _ _ _ _ _ _ _ _ _ _ C Ox Lxc Oy Lyc Sm Bl)
+      as (Ox' & Oy' & G & H).
+    split; [|split; [|split]].
+    + eapply p_lift_borrow_body; eauto.
+      * apply pshape_branch_intro; rewrite ?app_length; cbn [length]; try discriminate; try lia.
+        apply Forall_app; split; auto.
+      * apply pshape_branch_intro; cbn [length] in *; auto; try discriminate; lia.
+    + left. rewrite !app_length. reflexivity.
+    + rewrite !flat_map_zip2. simpl. rewrite flat_map_app. simpl. rewrite app_nil_r.
+      repeat rewrite <- app_assoc. reflexivity.
+    + apply links_del_eq. rewrite !flat_map_zip2. simpl. rewrite flat_map_app. simpl.
+      rewrite app_nil_r. repeat rewrite <- app_assoc. reflexivity.
+Qed.
+
+Lemma case_branch_borrow_left : forall c lo hi h ks1 sep ks2 cs1 cs2 xid xks xcs yid yks ycs,
+  4 <= c -> length cs1 = length ks1 ->
+  sorted_keys (ks1 ++ sep :: ks2) -> Forall (in_bounds lo hi) (ks1 ++ sep :: ks2) ->
+  ords lo hi (ks1 ++ sep :: ks2) (cs1 ++ PBranch xid c xks xcs :: PBranch yid c yks ycs :: cs2) ->
+  Forall (pshape c false (S h)) cs1 -> Forall (pshape c false (S h)) cs2 ->
+  length xcs = S (length xks) -> (c - 1) / 2 < length xks -> length xks <= c ->
+  Forall (pshape c false h) xcs ->
+  length ycs = S (length yks) -> S (length yks) = (c - 1) / 2 -> Forall (pshape c false h) ycs ->
+  exists ks' cs',
+    redistribute_from_left (ks1 ++ sep :: ks2)
+      (cs1 ++ PBranch xid c xks xcs :: PBranch yid c yks ycs :: cs2) (S (length cs1))
+    = Ok (ks', cs') /\
+    prb_post c lo hi (S h) (ks1 ++ sep :: ks2)
+      (cs1 ++ PBranch xid c xks xcs :: PBranch yid c yks ycs :: cs2) ks' cs'.
+Proof.
+  intros * C L Sk F O F1 F2 Lxc Lx1 Lx2 Fx Lyc Ly Fy.
+  pose proof (pmin_facts C) as PM.
+  destruct (snoc_cases xks) as [->|(xks' & mk & ->)]; [cbn [length] in Lx1; lia|].
+  destruct (snoc_cases xcs) as [->|(xcs' & mc & ->)]; [discriminate|].
+  assert (Lxc' : length xcs' = S (length xks')) by (rewrite !app_length in Lxc; cbn [length] in Lxc; lia).
+  assert (Lx' : (c - 1) / 2 <= length xks') by (rewrite app_length in Lx1; cbn [length] in Lx1; lia).
+  apply Forall_app in Fx. destruct Fx as [Fx Fm]. inversion Fm as [|? ? Sm _]; subst.
+  eexists. eexists. split.
+  - apply exec_left_branch; auto.
+  - destruct (zip_ctx _ _ _ _ _ _ _ _ _ _ L O) as (_ & Ox & _ & Oy).
+    destruct (zip_sep_bounds _ _ _ _ _ Sk F) as [Bl Bh].
+    assert (Ne : xks' <> []) by (intro; subst; cbn [length] in Lx'; lia).
+    destruct (p_pair_branch_borrow_left c h _ _ _ _ _ _ _ _ _ _ _ _ _ C Ox Lxc Oy Lyc Fy Bh Ne)
+      as (Ox' & Oy' & G & H).
+    split; [|split; [|split]].
+    + eapply p_lift_borrow_body; eauto.
+      * apply pshape_branch_intro; auto; try discriminate.
+        rewrite app_length in Lx2; cbn [length] in Lx2; lia.
+      * apply pshape_branch_intro; cbn [length]; auto; try discriminate; try lia.
+    + left. rewrite !app_length. reflexivity.
+    + rewrite !flat_map_zip2. simpl. rewrite flat_map_app. simpl. rewrite app_nil_r.
+      repeat rewrite <- app_assoc. reflexivity.
+    + apply links_del_eq. rewrite !flat_map_zip2. simpl. rewrite flat_map_app. simpl.
+      rewrite app_nil_r. repeat rewrite <- app_assoc. reflexivity.
+Qed.
+
+Lemma branch_merge_post : forall c lo hi h ks1 sep ks2 cs1 cs2 xid xks xcs yid yks ycs,
+  4 <= c -> length cs1 = length ks1 ->
+  sorted_keys (ks1 ++ sep :: ks2) -> Forall (in_bounds lo hi) (ks1 ++ sep :: ks2) ->
+  ords lo hi (ks1 ++ sep :: ks2) (cs1 ++ PBranch xid c xks xcs :: PBranch yid c yks ycs :: cs2) ->
+  Forall (pshape c false (S h)) cs1 -> Forall (pshape c false (S h)) cs2 ->
+  length xcs = S (length xks) -> Forall (pshape c false h) xcs ->
+  length ycs = S (length yks) -> Forall (pshape c false h) ycs ->
+  S (length xks + length yks) = 2 * ((c - 1) / 2) ->
+  prb_post c lo hi (S h) (ks1 ++ sep :: ks2)
+    (cs1 ++ PBranch xid c xks xcs :: PBranch yid c yks ycs :: cs2)
+    (ks1 ++ ks2) (cs1 ++ PBranch xid c (xks ++ sep :: yks) (xcs ++ ycs) :: cs2).
+Proof.
+  intros * C L Sk F O F1 F2 Lxc Fx Lyc Fy Lsum.
+  pose proof (pmin_facts C) as PM.
+  destruct (zip_ctx _ _ _ _ _ _ _ _ _ _ L O) as (_ & Ox & _ & Oy).
+  destruct (zip_sep_bounds _ _ _ _ _ Sk F) as [Bl Bh].
+  pose proof (p_pair_branch_merge c h _ _ _ _ _ _ _ _ _ _ _ C Ox Lxc Oy Lyc Fy Bl Bh) as Om.
+  split; [|split; [|split]].
+  - eapply p_lift_merge_body; eauto.
+    apply pshape_branch_intro; rewrite ?app_length; cbn [length]; try discriminate; try lia.
+    apply Forall_app; split; auto.
+  - right. rewrite !app_length. simpl. lia.
+  - rewrite flat_map_zip2, flat_map_zip1. simpl. rewrite flat_map_app. reflexivity.
+  - apply links_del_eq. rewrite flat_map_zip2, flat_map_zip1. simpl. rewrite flat_map_app. reflexivity.
+Qed.
+
+(* ------------------------------------------------------------------ *)
+(* node predicates on well-shaped / underfull nodes *)
+
+(* structurally fine node with well-shaped children, any number of keys *)
+Inductive pshape_x (c : nat) : nat -> ptree -> Prop :=
+| pshape_x_leaf : forall id ks vs nx,
+    length vs = length ks -> pshape_x c 0 (PLeaf id c ks vs nx)
+| pshape_x_branch : forall h id ks cs,
+    length cs = S (length ks) -> Forall (pshape c false h) cs ->
+    pshape_x c (S h) (PBranch id c ks cs).
+
+Lemma pshape_u_x : forall c h t, pshape_u c h t -> pshape_x c h t.
+Proof. intros c h t H. inversion H; subst; constructor; auto. Qed.
+
+Lemma pshape_x_of : forall c r h t, pshape c r h t -> pshape_x c h t.
+Proof. intros c r h t H. inversion H; subst; constructor; auto. apply Forall_forall; auto. Qed.
+
+Lemma pshape_u_len : forall c h t, pshape_u c h t -> S (length (pkeys t)) = (c - 1) / 2.
+Proof. intros c h t H. inversion H; subst; cbn [pkeys]; auto. Qed.
+
+Lemma pshape_pcap : forall c r h t, pshape c r h t -> pcap t = c.
+Proof. intros c r h t H. inversion H; subst; reflexivity. Qed.
+
+Lemma pshape_u_pcap : forall c h t, pshape_u c h t -> pcap t = c.
+Proof. intros c h t H. inversion H; subst; reflexivity. Qed.
+
+Lemma pshape_len_ge : forall c h t, pshape c false h t -> (c - 1) / 2 <= length (pkeys t) <= c.
+Proof. intros c h t H. inversion H; subst; cbn [pkeys]; split; auto. Qed.
+
+Lemma pshape_u_underfull : forall c h t, pshape_u c h t -> py_is_underfull t = true.
+Proof.
+  intros c h t H. unfold py_is_underfull, min_keys. rewrite (pshape_u_pcap _ _ _ H).
+  apply Nat.ltb_lt. pose proof (pshape_u_len _ _ _ H). lia.
+Qed.
+
+Lemma pshape_not_underfull : forall c h t, pshape c false h t -> py_is_underfull t = false.
+Proof.
+  intros c h t H. unfold py_is_underfull, min_keys. rewrite (pshape_pcap _ _ _ _ H).
+  apply Nat.ltb_ge. apply (pshape_len_ge _ _ _ H).
+Qed.
+
+(* the test that guards the call of _handle_underflow in _delete_recursive *)
+Lemma pshape_no_trigger : forall c h t, 4 <= c -> pshape c false h t ->
+  orb (Nat.eqb (length (pkeys t)) 0) (py_is_underfull t) = false.
+Proof.
+  intros c h t C H. rewrite (pshape_not_underfull _ _ _ H).
+  pose proof (pmin_facts C). pose proof (pshape_len_ge _ _ _ H).
+  destruct (Nat.eqb_spec (length (pkeys t)) 0); [lia|reflexivity].
+Qed.
+
+Lemma pshape_u_trigger : forall c h t, pshape_u c h t ->
+  orb (Nat.eqb (length (pkeys t)) 0) (py_is_underfull t) = true.
+Proof. intros c h t H. rewrite (pshape_u_underfull _ _ _ H). apply orb_true_r. Qed.
+
+Lemma pshape_donate : forall c h t, pshape c false h t -> py_can_donate t = true ->
+  (c - 1) / 2 < length (pkeys t).
+Proof.
+  intros c h t H D. unfold py_can_donate, min_keys in D. rewrite (pshape_pcap _ _ _ _ H) in D.
+  apply Nat.ltb_lt in D. exact D.
+Qed.
+
+Lemma pshape_no_donate : forall c h t, pshape c false h t -> py_can_donate t = false ->
+  length (pkeys t) = (c - 1) / 2.
+Proof.
+  intros c h t H D. unfold py_can_donate, min_keys in D. rewrite (pshape_pcap _ _ _ _ H) in D.
+  apply Nat.ltb_ge in D. pose proof (pshape_len_ge _ _ _ H). lia.
+Qed.
+
+(* ------------------------------------------------------------------ *)
+(* the cases, generic in the height *)
+
+Lemma case_borrow_right : forall c lo hi h ks1 sep ks2 cs1 cs2 x y,
+  4 <= c -> length cs1 = length ks1 ->
+  sorted_keys (ks1 ++ sep :: ks2) -> Forall (in_bounds lo hi) (ks1 ++ sep :: ks2) ->
+  ords lo hi (ks1 ++ sep :: ks2) (cs1 ++ x :: y :: cs2) ->
+  Forall (pshape c false h) cs1 -> Forall (pshape c false h) cs2 ->
+  pshape_u c h x -> pshape c false h y -> py_can_donate y = true ->
+  exists ks' cs',
+    redistribute_from_right (ks1 ++ sep :: ks2) (cs1 ++ x :: y :: cs2) (length cs1) = Ok (ks', cs') /\
+    prb_post c lo hi h (ks1 ++ sep :: ks2) (cs1 ++ x :: y :: cs2) ks' cs'.
+Proof.
+  intros * C L Sk F O F1 F2 Sx Sy D.
+  pose proof (pshape_donate _ _ _ Sy D) as Dy.
+  inversion Sx; subst.
+  - destruct (pshape_0_leaf Sy) as (yid & yks & yvs & ynx & ->).
+    apply pshape_leaf_inv in Sy. destruct Sy as (_ & _ & Lyv & Ly2 & _).
+    apply case_leaf_borrow_right; auto.
+  - destruct (pshape_S_branch Sy) as (yid & yks & ycs & ->).
+    apply pshape_branch_invF in Sy. destruct Sy as (h' & Eh & _ & Lyc & Ly2 & _ & _ & Fy).
+    injection Eh as <-.
+    apply case_branch_borrow_right; auto.
+Qed.
+
+Lemma case_borrow_left : forall c lo hi h ks1 sep ks2 cs1 cs2 x y,
+  4 <= c -> length cs1 = length ks1 ->
+  sorted_keys (ks1 ++ sep :: ks2) -> Forall (in_bounds lo hi) (ks1 ++ sep :: ks2) ->
+  ords lo hi (ks1 ++ sep :: ks2) (cs1 ++ x :: y :: cs2) ->
+  Forall (pshape c false h) cs1 -> Forall (pshape c false h) cs2 ->
+  pshape c false h x -> py_can_donate x = true -> pshape_u c h y ->
+  exists ks' cs',
+    redistribute_from_left (ks1 ++ sep :: ks2) (cs1 ++ x :: y :: cs2) (S (length cs1)) = Ok (ks', cs') /\
+    prb_post c lo hi h (ks1 ++ sep :: ks2) (cs1 ++ x :: y :: cs2) ks' cs'.
+Proof.
+  intros * C L Sk F O F1 F2 Sx D Sy.
+  pose proof (pshape_donate _ _ _ Sx D) as Dx.
+  inversion Sy; subst.
+  - destruct (pshape_0_leaf Sx) as (xid & xks & xvs & xnx & ->).
+    apply pshape_leaf_inv in Sx. destruct Sx as (_ & _ & Lxv & Lx2 & _).
+    apply case_leaf_borrow_left; auto.
+  - destruct (pshape_S_branch Sx) as (xid & xks & xcs & ->).
+    apply pshape_branch_invF in Sx. destruct Sx as (h' & Eh & _ & Lxc & Lx2 & _ & _ & Fx).
+    injection Eh as <-.
+    apply case_branch_borrow_left; auto.
+Qed.
+
+(* the capacity guards of the two arms of _merge_with_sibling pass *)
+Lemma case_merge : forall c lo hi h ks1 sep ks2 cs1 cs2 x y,
+  4 <= c -> length cs1 = length ks1 ->
+  sorted_keys (ks1 ++ sep :: ks2) -> Forall (in_bounds lo hi) (ks1 ++ sep :: ks2) ->
+  ords lo hi (ks1 ++ sep :: ks2) (cs1 ++ x :: y :: cs2) ->
+  Forall (pshape c false h) cs1 -> Forall (pshape c false h) cs2 ->
+  pshape_x c h x -> pshape_x c h y ->
+  S (length (pkeys x) + length (pkeys y)) = 2 * ((c - 1) / 2) ->
+  exists ks' cs',
+    merge_pair c (ks1 ++ sep :: ks2) (cs1 ++ x :: y :: cs2) (length cs1) = Ok (ks', cs') /\
+    S (length ks') = length (ks1 ++ sep :: ks2) /\
+    prb_post c lo hi h (ks1 ++ sep :: ks2) (cs1 ++ x :: y :: cs2) ks' cs'.
+Proof.
+  intros * C L Sk F O F1 F2 Sx Sy Lsum.
+  pose proof (pmin_facts C) as PM.
+  inversion Sx; subst; inversion Sy; subst; cbn [pkeys] in Lsum.
+  - eexists. eexists. split; [|split].
+    + apply exec_merge_leaf; auto. lia.
+    + rewrite !app_length. cbn [length]. lia.
+    + apply leaf_merge_post; auto.
+  - eexists. eexists. split; [|split].
+    + apply exec_merge_branch; auto; lia.
+    + rewrite !app_length. cbn [length]. lia.
+    + apply branch_merge_post; auto.
+Qed.
+
+(* ------------------------------------------------------------------ *)
+(* summary: _handle_underflow repairs the parent *)
+Lemma nth_error_zipS : forall (A : Type) (l1 : list A) x l2,
+  nth_error (l1 ++ x :: l2) (S (length l1)) = hd_error l2.
+Proof.
+  intros. replace (S (length l1)) with (length l1 + 1) by lia. rewrite nth_error_zipn.
+  destruct l2; reflexivity.
+Qed.
+
+Lemma handle_underflow_spec : forall c lo hi h ks1 ks2 cs1 cs2 x,
+  4 <= c -> length cs1 = length ks1 ->
+  sorted_keys (ks1 ++ ks2) -> Forall (in_bounds lo hi) (ks1 ++ ks2) ->
+  ords lo hi (ks1 ++ ks2) (cs1 ++ x :: cs2) ->
+  Forall (pshape c false h) cs1 -> Forall (pshape c false h) cs2 -> pshape_u c h x ->
+  1 <= length (ks1 ++ ks2) ->
+  exists ks' cs',
+    handle_underflow c (ks1 ++ ks2) (cs1 ++ x :: cs2) (length cs1) = Ok (ks', cs') /\
+    prb_post c lo hi h (ks1 ++ ks2) (cs1 ++ x :: cs2) ks' cs'.
+Proof.
+  intros * C L Sk F O F1 F2 Sx Lk.
+  pose proof (ords_length _ _ _ _ O) as LO.
+  assert (Lcs2 : length cs2 = length ks2).
+  { rewrite !app_length in LO. cbn [length] in LO. lia. }
+  pose proof (pshape_u_underfull _ _ _ Sx) as U.
+  pose proof (pshape_u_len _ _ _ Sx) as Lx.
+  pose proof (nth_error_zip0 cs1 x cs2) as Ex.
+  (* merging with the left sibling *)
+  assert (ML : forall cs1a l ks1a sep, cs1 = cs1a ++ [l] -> ks1 = ks1a ++ [sep] ->
+            py_can_donate l = false ->
+            (forall r, hd_error cs2 = Some r -> py_can_donate r = false) ->
+            exists ks' cs',
+              handle_underflow c (ks1 ++ ks2) (cs1 ++ x :: cs2) (length cs1) = Ok (ks', cs') /\
+              prb_post c lo hi h (ks1 ++ ks2) (cs1 ++ x :: cs2) ks' cs').
+  { intros cs1a l ks1a sep -> -> Dl Hr.
+    assert (La : length cs1a = length ks1a) by (rewrite !length_snoc in L; lia).
+    apply Forall_app in F1. destruct F1 as [F1a Fl]. inversion Fl as [|? ? Sl _]; subst.
+    pose proof (pshape_no_donate _ _ _ Sl Dl) as Ll.
+    rewrite (hu_merge c _ _ _ x Ex U).
+    2:{ intros r Hn. rewrite nth_error_zipS in Hn. auto. }
+    2:{ intros l0 _ Hn. rewrite snoc_zip in Hn. rewrite length_snoc in Hn.
+        replace (S (length cs1a) - 1) with (length cs1a) in Hn by lia.
+        rewrite nth_error_zip0 in Hn. injection Hn as <-. exact Dl. }
+    rewrite merge_with_sibling_left; [|rewrite length_snoc; lia|rewrite !app_length; cbn [length]; lia|exact LO].
+    rewrite !snoc_zip in *. rewrite length_snoc.
+    replace (S (length cs1a) - 1) with (length cs1a) by lia.
+    destruct (case_merge c lo hi h ks1a sep ks2 cs1a cs2 l x) as (ks' & cs' & E1 & _ & P); auto.
+    - eapply pshape_x_of; eauto.
+    - apply pshape_u_x; auto.
+    - lia.
+    - exists ks', cs'. split; auto. }
+  (* borrowing from the left sibling *)
+  assert (BL : forall cs1a l ks1a sep, cs1 = cs1a ++ [l] -> ks1 = ks1a ++ [sep] ->
+            py_can_donate l = true ->
+            (forall r, hd_error cs2 = Some r -> py_can_donate r = false) ->
+            exists ks' cs',
+              handle_underflow c (ks1 ++ ks2) (cs1 ++ x :: cs2) (length cs1) = Ok (ks', cs') /\
+              prb_post c lo hi h (ks1 ++ ks2) (cs1 ++ x :: cs2) ks' cs').
+  { intros cs1a l ks1a sep -> -> Dl Hr.
+    assert (La : length cs1a = length ks1a) by (rewrite !length_snoc in L; lia).
+    apply Forall_app in F1. destruct F1 as [F1a Fl]. inversion Fl as [|? ? Sl _]; subst.
+    rewrite (hu_left c _ _ _ x l Ex U).
+    2:{ intros r Hn. rewrite nth_error_zipS in Hn. auto. }
+    2:{ rewrite length_snoc; lia. }
+    2:{ rewrite snoc_zip. rewrite length_snoc.
+        replace (S (length cs1a) - 1) with (length cs1a) by lia. apply nth_error_zip0. }
+    2:{ exact Dl. }
+    rewrite !snoc_zip in *. rewrite length_snoc.
+    apply case_borrow_left; auto. }
+  destruct cs2 as [|r cs2b].
+  - (* no right sibling *)
+    destruct ks2; [|discriminate]. rewrite app_nil_r in *.
+    destruct (snoc_cases cs1) as [->|(cs1a & l & ->)].
+    + destruct ks1; [cbn [length] in Lk; lia|discriminate].
+    + destruct (snoc_cases ks1) as [->|(ks1a & sep & ->)];
+        [rewrite length_snoc in L; cbn [length] in L; lia|].
+      pose proof (ML cs1a l ks1a sep eq_refl eq_refl) as ML'.
+      pose proof (BL cs1a l ks1a sep eq_refl eq_refl) as BL'.
+      rewrite ?app_nil_r in ML', BL'.
+      destruct (py_can_donate l) eqn:Dl.
+      * apply BL'; auto. intros r Hr; discriminate.
+      * apply ML'; auto. intros r Hr; discriminate.
+  - destruct ks2 as [|sep2 ks2b]; [discriminate|].
+    inversion F2 as [|? ? Sr F2b]; subst.
+    destruct (py_can_donate r) eqn:Dr.
+    + (* borrow from the right sibling *)
+      rewrite (hu_right c _ _ _ x r Ex U (nth_error_zip1 _ _ _ _) Dr).
+      apply case_borrow_right; auto.
+    + assert (Hr : forall r0, hd_error (r :: cs2b) = Some r0 -> py_can_donate r0 = false).
+      { intros r0 Hn. injection Hn as <-. exact Dr. }
+      destruct (snoc_cases cs1) as [->|(cs1a & l & ->)].
+      * (* leftmost child: merge with the right sibling *)
+        destruct ks1; [|discriminate]. cbn [app length] in *.
+        pose proof (pshape_no_donate _ _ _ Sr Dr) as Lr.
+        rewrite (hu_merge c _ _ _ x Ex U).
+        2:{ intros r0 Hn. cbn in Hn. injection Hn as <-. exact Dr. }
+        2:{ intros l0 H0. lia. }
+        rewrite merge_with_sibling_right; [|cbn [length]; lia|exact LO].
+        destruct (case_merge c lo hi h [] sep2 ks2b [] cs2b x r) as (ks' & cs' & E1 & _ & P); auto.
+        -- apply pshape_u_x; auto.
+        -- eapply pshape_x_of; eauto.
+        -- lia.
+        -- exists ks', cs'. split; auto.
+      * destruct (snoc_cases ks1) as [->|(ks1a & sep & ->)];
+          [rewrite length_snoc in L; cbn [length] in L; lia|].
+        destruct (py_can_donate l) eqn:Dl.
+        -- eapply BL; eauto.
+        -- eapply ML; eauto.
+Qed.
+
+(* ------------------------------------------------------------------ *)
+(* The capacity guards of _merge_with_sibling ("if len(left) + len(child) <= capacity",
+   and the two-part guard for branches) never refuse on invariant states: when
+   _handle_underflow reaches _merge_with_sibling, the child has (cap-1)/2 - 1 keys and
+   the sibling it is merged with cannot donate, i.e. has exactly (cap-1)/2 keys; the
+   merged node then has at most cap-1 keys, and the call really merges (the parent loses
+   one key and one child).  No order hypothesis is needed. *)
+Lemma merge_pair_ok : forall c h ks1 sep ks2 (cs1 cs2 : list ptree) x y,
+  4 <= c -> length cs1 = length ks1 -> pshape_x c h x -> pshape_x c h y ->
+  S (length (pkeys x) + length (pkeys y)) = 2 * ((c - 1) / 2) ->
+  exists m, merge_pair c (ks1 ++ sep :: ks2) (cs1 ++ x :: y :: cs2) (length cs1)
+            = Ok (ks1 ++ ks2, cs1 ++ m :: cs2).
+Proof.
+  intros * C L Sx Sy Lsum. pose proof (pmin_facts C) as PM.
+  inversion Sx; subst; inversion Sy; subst; cbn [pkeys] in Lsum; eexists.
+  - apply exec_merge_leaf; auto. lia.
+  - apply exec_merge_branch; auto; lia.
+Qed.
+
+Lemma merge_guard_never_refuses : forall c h ks (cs : list ptree) ci x,
+  4 <= c -> length cs = S (length ks) -> 1 <= length ks ->
+  nth_error cs ci = Some x -> pshape_u c h x ->
+  (forall j y, j <> ci -> nth_error cs j = Some y -> pshape c false h y) ->
+  (forall l, 0 < ci -> nth_error cs (ci - 1) = Some l -> py_can_donate l = false) ->
+  (forall r, ci = 0 -> nth_error cs 1 = Some r -> py_can_donate r = false) ->
+  exists ks' cs', merge_with_sibling c ks cs ci = Ok (ks', cs') /\
+    S (length ks') = length ks /\ S (length cs') = length cs.
+Proof.
+  intros * C L Lk Ex Sx Sib Hl Hr.
+  assert (Hci : ci < length cs) by (apply nth_error_Some; congruence).
+  pose proof (pshape_u_len _ _ _ Sx) as Lx.
+  destruct (nth_error_zip_inv _ _ Ex) as (l1 & cs2 & -> & Ll1).
+  destruct (snoc_cases l1) as [->|(cs1 & l & ->)].
+  - (* leftmost child *)
+    cbn [length] in Ll1. subst ci. cbn [app] in *.
+    destruct cs2 as [|r cs2]; [cbn [length] in L; lia|].
+    destruct ks as [|sep ks2]; [cbn [length] in Lk; lia|].
+    pose proof (Hr r eq_refl eq_refl) as Dr.
+    pose proof (Sib 1 r ltac:(lia) eq_refl) as Sr.
+    pose proof (pshape_no_donate _ _ _ Sr Dr) as Lr.
+    rewrite merge_with_sibling_right; [|cbn [length]; lia|exact L].
+    destruct (merge_pair_ok c h [] sep ks2 [] cs2 x r C eq_refl (pshape_u_x _ _ _ Sx)
+                (pshape_x_of _ _ _ _ Sr) ltac:(lia)) as (m & E).
+    cbn [app length] in E. rewrite E. eexists. eexists. split; [reflexivity|].
+    cbn [length]. lia.
+  - rewrite length_snoc in Ll1. rewrite snoc_zip in *.
+    assert (H0 : 0 < ci) by lia.
+    assert (El : nth_error (cs1 ++ l :: x :: cs2) (ci - 1) = Some l).
+    { replace (ci - 1) with (length cs1) by lia. apply nth_error_zip0. }
+    pose proof (Hl l H0 El) as Dl.
+    pose proof (Sib (ci - 1) l ltac:(lia) El) as Sl.
+    pose proof (pshape_no_donate _ _ _ Sl Dl) as Ll.
+    assert (Hk : length cs1 < length ks).
+    { rewrite app_length in L. cbn [length] in L. lia. }
+    destruct (nth_error ks (length cs1)) as [sep|] eqn:Es; [|apply nth_error_None in Es; lia].
+    destruct (nth_error_zip_inv _ _ Es) as (ks1 & ks2 & -> & Lk1).
+    rewrite merge_with_sibling_left; [|exact H0|exact Hci|exact L].
+    replace (ci - 1) with (length cs1) by lia.
+    destruct (merge_pair_ok c h ks1 sep ks2 cs1 cs2 l x C (eq_sym Lk1) (pshape_x_of _ _ _ _ Sl)
+                (pshape_u_x _ _ _ Sx) ltac:(lia)) as (m & E).
+    rewrite E. eexists. eexists. split; [reflexivity|].
+    rewrite !app_length. cbn [length]. lia.
 Qed.
